@@ -138,10 +138,14 @@ func TestModulePermutation(t *testing.T) {
 				nm.Name = fmt.Sprintf("%s.%0*d.x", []string{"nm", "Nm", "NM", "Zeta", "cfg", "CFG"}[i%6], 1+i%2, 2+(i*9)%7)
 			}
 		}
-		x := m.Text()
+		// scalar types spelled through alias chains of different lengths: the aliases are not definitions of
+		// their own, the types they name must still be listed in natural order of *their* names
+		noise := gen.DrawNoiseWithAliases(rt)
+		noise = am.Noise{TypeAlias: noise.TypeAlias}
+		x := m.TextNoisy(noise)
 		orig := m.Order
 		m.Order = permute(rt, m)
-		px := m.Text()
+		px := m.TextNoisy(noise)
 		m.Order = orig
 		hx.Eval(1)
 		c := x + "\n; ======== permuted ========\n" + px
